@@ -218,6 +218,11 @@ def run(chk, only_corpus=False):
         "rt-nul-in-string, rt-block-string-edge, rt-sdl-empty-body-dropped, rt-string-line-continuation are repaired; their "
         "inputs are regression cases in corpus/C05); the driver only adds a diagnostic when a stored string is not re-quotable "
         "per the extracted string_stable_b / description_stable_b",
+        "c05_block_string_requotable is stated over C15's model of readBlockString's trimming (C15.Model.blex_step, "
+        "block_start/block_end/go_block_lexable) and Print.print_block_string; the trimming model is compared with every "
+        "terminated block-string token of the implementation (corr:C05/block-trim; body = the bytes between the delimiters "
+        "found by undoing the trimming); it is not proved equal to Lex.bstring_loop (the same loop with cursor positions), "
+        "both are tied to the Go lexer by comparison",
         "the pre-repair lexer and printer (coq/C05/PreFix.v, module V0) are kept for the historical refutations only; they "
         "are not extracted and not tied to any code",
         "block-string descriptions are compared by BlockStringValue (harness/gqldump.BlockStringValue, written for this "
